@@ -271,13 +271,47 @@ fn captured_strongly(body: &str, id: &str) -> bool {
             let next = toks.get(i + 1).copied().unwrap_or("");
             let declared = prev == "let" || next == ":" || prev == "|" && next == "|";
             let downgrade = prev == "&" && prev2 == "(" && i >= 3 && toks[i - 3] == "downgrade";
-            if !declared && !downgrade {
+            // `let _ = id ;` is not a use (precise closure captures): it does not capture `id`
+            let wildcard = prev == "=" && prev2 == "_" && i >= 3 && toks[i - 3] == "let" && next == ";";
+            if !declared && !downgrade && !wildcard {
                 return true;
             }
         }
         i += 1;
     }
     false
+}
+
+/// the initializer text of `let <name> = ... ;` (up to the bracket matching the first one after `=`)
+fn init_of(body: &str, name: &str) -> Option<String> {
+    let start = body.find(&format!("let {} =", name))?;
+    let rest = &body[start..];
+    let toks: Vec<&str> = rest.split(' ').collect();
+    let mut depth = 0i32;
+    let mut seen = false;
+    let mut n = toks.len();
+    for (i, t) in toks.iter().enumerate() {
+        match *t {
+            "(" | "{" | "[" => {
+                depth += 1;
+                seen = true
+            }
+            ")" | "}" | "]" => {
+                depth -= 1;
+                if seen && depth == 0 {
+                    n = i + 1;
+                    break;
+                }
+            }
+            _ => {}
+        }
+    }
+    Some(toks[..n].join(" "))
+}
+
+/// is `id` captured by one of the long-lived closures stored in the handle (their `let` initializers)?
+fn held_by_stored_closures(body: &str, id: &str, closures: &[&str]) -> bool {
+    closures.iter().any(|c| init_of(body, c).map(|init| captured_strongly(&init, id)).unwrap_or(false))
 }
 
 fn which_ident_before(body: &str, anchor_let: &str, call: &str, cands: &[(&str, &str)]) -> Option<String> {
@@ -348,8 +382,9 @@ fn main() {
             Some(k) => {
                 let txs = params_of_type(&k.0, "ChanTx");
                 let fos = params_of_type(&k.0, "ForceChanTx");
-                let tx = txs.iter().any(|id| captured_strongly(&k.0, id));
-                let fo = fos.iter().any(|id| captured_strongly(&k.0, id));
+                let stored = ["send_fn", "force_send_fn", "call_fn"];
+                let tx = txs.iter().any(|id| held_by_stored_closures(&k.0, id, &stored));
+                let fo = fos.iter().any(|id| held_by_stored_closures(&k.0, id, &stored));
                 o.put(&format!("holds.{}", kind), halves(tx, fo), at(k));
             }
             None => o.put(&format!("holds.{}", kind), "unknown", ""),
